@@ -317,13 +317,13 @@ func (w *World) verifyContract(c *Contract) (res *FuncResult) {
 		fv.verifyLemma(c, pkg)
 		return
 	}
+	if c.Trusted {
+		res.Trusted = true
+		return
+	}
 	d := w.declsByName[c.Key()]
 	if d == nil {
 		res.OutOfSubset = "contract target not found: " + c.Key()
-		return
-	}
-	if c.Trusted {
-		res.Trusted = true
 		return
 	}
 	fv.verifyFunc(c, d)
@@ -491,6 +491,11 @@ func (fv *FV) verifyFunc(c *Contract, d *declInfo) {
 		fv.oblige(exit, "ensures", e.Label, g, e.Text, d.decl.Pos())
 	}
 	fv.checkFrame(exit, c, penv, d)
+	// vacuity canary at the exit: everything assumed along the way (callee
+	// postconditions, invariants, modelled library axioms) together with the
+	// exit path condition must be satisfiable
+	fv.obls = append(fv.obls, &Obl{Name: fv.fname + "#vacuity.exit", Func: fv.fname, Kind: "vacuity", Goal: not(exit.pc),
+		NDecls: len(fv.sess.decls), NFacts: len(fv.sess.facts), Props: c.Props, Text: "the function's exit is reachable under everything assumed (this query must not be unsat)"})
 	_ = w
 }
 
@@ -631,6 +636,14 @@ func (fv *FV) lemmaStatement(lc *Contract, st *State) string {
 func (fv *FV) checkFrame(exit *State, c *Contract, env *SpecEnv, d *declInfo) {
 	if c.AssignsAll {
 		return
+	}
+	if c.AllUnless != nil {
+		// the frame is only promised when the condition held on entry
+		oenv := *env
+		oenv.cur = env.old
+		cond := fv.evalSpecBool(&oenv, c.AllUnless)
+		exit = exit.clone()
+		exit.pc = fv.namePC(and(exit.pc, cond))
 	}
 	// declared: key -> list of refs ("" = all refs)
 	declared := map[string][]string{}
